@@ -1,4 +1,5 @@
 """C09 — Aggregation returns one row per group, and one row without grouping (executor-model part + oracle)."""
+from ..suites_ops import K2Build
 from .. import oracles, pipes
 from .refsem import suite
 
@@ -58,6 +59,25 @@ def oracle_C09_full(case, **opts):
         pass
     return fs
 
-SUITES = [suite(PROPERTY, oracle_C09_full, CANDS, n_quick=120, n_thorough=500,
+class _K2(K2Build):
+    """the builder calls themselves: a keyed window is never merged into a window over the whole table (or into one with
+    another key list) - the merge of consecutive windowed extends is part of what decides which group a row's value is computed over"""
+    gen_opts = dict(K2Build.gen_opts, fault_rate=0.0, window=4.0)
+    n_quick, n_thorough = 120, 1200
+
+    def corpus(self):
+        t = {"d": {"cols": ["g", "x", "y", "i"], "kinds": ["str", "int", "int", "int"], "rows": []}}
+
+        def ext(ops, pb=None, ob=None):
+            return {"call": "extend", "ops": ops, "partition_by": pb, "order_by": ob, "reverse": None}
+        chains = [[ext([["sx", "x.sum()"]], ["g"]), ext([["ty", "y.sum()"]], 1)],
+                  [ext([["sx", "x.sum()"]], 1), ext([["ty", "y.sum()"]], ["g"])],
+                  [ext([["sx", "x.sum()"]], ["g"]), ext([["ty", "y.sum()"]], ["g", "i"])],
+                  [ext([["sx", "x.sum()"]], ["g"]), ext([["ty", "y.sum()"]], ["g"])],
+                  [ext([["sx", "x.cumsum()"]], ["g"], ["i"]), ext([["ty", "y.cumsum()"]], 1, ["i"])]]
+        return [{"tables": t, "pipe": {"table": "d", "steps": st}, "meta": {"fault": None}} for st in chains]
+
+
+SUITES = [_K2(), suite(PROPERTY, oracle_C09_full, CANDS, n_quick=120, n_thorough=500,
                 max_rows=10, null_keys=0.7, empty_tables=0.2, dead_project=0.6, window=2.0,
                 step_weights={"project": 3.0})]
